@@ -6,6 +6,8 @@ replaced for paths under the root only; everything else passes through.
 
 Files are inodes (bytes + mtime); a directory entry maps a path to an inode, so
 a handle opened before a rename keeps reading the old inode (POSIX semantics).
+A directory entry can also be a symbolic link (target path + its own mtime):
+open / stat / utime follow it, lstat / rename / unlink act on the link itself.
 Opened files are a RawIOBase wrapped in CPython's own Buffered*/TextIOWrapper,
 so the real buffering logic decides where the flush boundaries are.
 """
@@ -19,6 +21,7 @@ import types
 
 ROOT = "/vfs"
 FD_BASE = 1_000_000
+LINK_MARK = b"\0SYMLINK->"  # how a symbolic link appears in a snapshot
 
 
 def reset_library_caches(prefix="tola"):
@@ -124,6 +127,7 @@ class VRaw(io.RawIOBase):
 class VFS:
     def __init__(self, bufsize=16, coarse=True):
         self.files = {}  # path -> Inode
+        self.links = {}  # path -> (target path, mtime of the link itself)
         self.now = 1
         self.coarse = coarse
         self.bufsize = bufsize
@@ -159,15 +163,29 @@ class VFS:
     def put(self, path, data, mtime=None):
         self.files[path] = Inode(data, self.now if mtime is None else mtime)
 
+    def symlink(self, path, target, mtime=None):
+        self.links[path] = (target, self.now if mtime is None else mtime)
+
     def remove(self, path):
         self.files.pop(path, None)
+        self.links.pop(path, None)
 
     def snapshot(self):
-        return tuple(sorted((p, bytes(i.data), i.mtime) for p, i in self.files.items()))
+        ents = [(p, bytes(i.data), i.mtime) for p, i in self.files.items()]
+        ents += [(p, LINK_MARK + t.encode(), m) for p, (t, m) in self.links.items()]
+        return tuple(sorted(ents))
 
     def restore(self, snap, now):
-        self.files = {p: Inode(d, m) for p, d, m in snap}
+        self.files = {p: Inode(d, m) for p, d, m in snap if not d.startswith(LINK_MARK)}
+        self.links = {p: (d[len(LINK_MARK) :].decode(), m) for p, d, m in snap if d.startswith(LINK_MARK)}
         self.now = now
+
+    def _resolve(self, p):
+        for _ in range(8):
+            if p not in self.links:
+                return p
+            p = self.links[p][0]
+        raise OSError(40, "Too many levels of symbolic links", p)
 
     # -- patched entry points --------------------------------------------------
     @staticmethod
@@ -193,7 +211,8 @@ class VFS:
         plus = "+" in m
         m = m.replace("+", "")
         self.hook("open-" + m, p)
-        ino = self.files.get(p)
+        rp = self._resolve(p)
+        ino = self.files.get(rp)
         if m == "r":
             if ino is None:
                 self.observe(("open", p, None))
@@ -205,7 +224,7 @@ class VFS:
                 raise FileExistsError(17, "File exists", p)
             if ino is None:
                 ino = Inode(b"", self.stamp())
-                self.files[p] = ino
+                self.files[rp] = ino
                 self.log.append(("create", p, 0))
             elif m == "w":
                 del ino.data[:]
@@ -260,12 +279,15 @@ class VFS:
         if p is None:
             return self._saved["os.open"](path, flags, mode, *a, **k)
         self.hook("os.open", p)
-        ino = self.files.get(p)
+        if p in self.links and flags & os.O_CREAT and flags & os.O_EXCL:
+            raise FileExistsError(17, "File exists", p)
+        rp = self._resolve(p)
+        ino = self.files.get(rp)
         if ino is None:
             if not flags & os.O_CREAT:
                 raise FileNotFoundError(2, "No such file or directory", p)
             ino = Inode(b"", self.stamp())
-            self.files[p] = ino
+            self.files[rp] = ino
             self.log.append(("create", p, 0))
         else:
             if flags & os.O_CREAT and flags & os.O_EXCL:
@@ -327,12 +349,31 @@ class VFS:
         self.hook("stat", p)
         if p == ROOT:
             return os.stat_result((stat_mod.S_IFDIR | 0o755, 1, 1, 1, 0, 0, 0, 0, 0, 0))
-        ino = self.files.get(p)
+        if p in self.links:
+            if not kwargs.get("follow_symlinks", True):
+                t, m = self.links[p]
+                self.observe(("lstat", p, m))
+                return os.stat_result((stat_mod.S_IFLNK | 0o777, hash(p) & 0xFFFFFF, 1, 1, 0, 0, len(t), m, m, m))
+            ino = self.files.get(self._resolve(p))
+        else:
+            ino = self.files.get(p)
         if ino is None:
             self.observe(("stat", p, None))
             raise FileNotFoundError(2, "No such file or directory", p)
         self.observe(("stat", p, ino.mtime))
         return os.stat_result((stat_mod.S_IFREG | 0o644, id(ino) & 0xFFFFFF, 1, 1, 0, 0, len(ino.data), ino.mtime, ino.mtime, ino.mtime))
+
+    def v_lstat(self, path, *args, **kwargs):
+        kwargs["follow_symlinks"] = False
+        return self.v_stat(path, *args, **kwargs)
+
+    def v_readlink(self, path, *args, **kwargs):
+        p = self._virtual(path)
+        if p is None:
+            return self._saved["readlink"](path, *args, **kwargs)
+        if p not in self.links:
+            raise OSError(22, "Invalid argument", p)
+        return self.links[p][0]
 
     def v_replace(self, src, dst, *args, **kwargs):
         ps, pd = self._virtual(src), self._virtual(dst)
@@ -341,10 +382,17 @@ class VFS:
         if ps is None or pd is None:
             raise OSError(18, "vfs: cross-device rename")
         self.hook("replace", pd)
+        if ps in self.links:  # the link itself moves
+            lk = self.links.pop(ps)
+            self.files.pop(pd, None)
+            self.links[pd] = lk
+            self.log.append(("replace", pd, 0))
+            return
         ino = self.files.get(ps)
         if ino is None:
             raise FileNotFoundError(2, "No such file or directory", ps)
         del self.files[ps]
+        self.links.pop(pd, None)  # a link at the destination is replaced, not followed
         self.files[pd] = ino
         self.log.append(("replace", pd, len(ino.data)))
 
@@ -353,6 +401,10 @@ class VFS:
         if p is None:
             return self._saved["unlink"](path, *args, **kwargs)
         self.hook("unlink", p)
+        if p in self.links:
+            del self.links[p]
+            self.log.append(("unlink", p, 0))
+            return
         if p not in self.files:
             raise FileNotFoundError(2, "No such file or directory", p)
         del self.files[p]
@@ -363,7 +415,10 @@ class VFS:
         if p is None:
             return self._saved["utime"](path, times, **kwargs)
         self.hook("utime", p)
-        ino = self.files.get(p)
+        if p in self.links and not kwargs.get("follow_symlinks", True):
+            self.links[p] = (self.links[p][0], self.stamp() if times is None else int(times[1]))
+            return
+        ino = self.files.get(self._resolve(p))
         if ino is None:
             raise FileNotFoundError(2, "No such file or directory", p)
         ino.mtime = self.stamp() if times is None else int(times[1])
@@ -377,7 +432,7 @@ class VFS:
             return self._saved["listdir"](path)
         self.hook("listdir", p)
         pre = p.rstrip("/") + "/"
-        return sorted({f[len(pre) :].split("/")[0] for f in self.files if f.startswith(pre)})
+        return sorted({f[len(pre) :].split("/")[0] for f in (*self.files, *self.links) if f.startswith(pre)})
 
     def v_unsupported(self, name):
         def f(path, *a, **k):
@@ -408,6 +463,7 @@ class VFS:
             "symlink": os.symlink,
             "truncate": os.truncate,
             "chmod": os.chmod,
+            "readlink": os.readlink,
         }
         import tempfile
 
@@ -425,7 +481,8 @@ class VFS:
         builtins.open = self.v_open
         io.open = self.v_open
         os.stat = self.v_stat
-        os.lstat = self.v_stat
+        os.lstat = self.v_lstat
+        os.readlink = self.v_readlink
         os.replace = self.v_replace
         os.rename = self.v_replace
         os.unlink = self.v_unlink
@@ -446,6 +503,7 @@ class VFS:
         io.open = s["open"]
         os.stat = s["stat"]
         os.lstat = s["lstat"]
+        os.readlink = s["readlink"]
         os.replace = s["replace"]
         os.rename = s["rename"]
         os.unlink = s["unlink"]
